@@ -60,6 +60,28 @@ func runAny(c *rig.Ctx, raw json.RawMessage, record bool) bool {
 	return false
 }
 
+// Failure accounting: the search for an input on which the real code breaks the property goes on until
+// five judge failures are recorded; a correspondence difference is recorded once per class (it must not
+// crowd out the judge failures: ./check reports the first judge failure if there is any).
+var (
+	lastClass     string // class of the failure found by the last run* call ("" = none)
+	judgeFailures int
+	diffSeen      = map[string]bool{}
+)
+
+func report(c *rig.Ctx, f rig.Failure) {
+	if f.Kind == "judge" {
+		judgeFailures++
+		c.Fail(f)
+		return
+	}
+	if diffSeen[f.Class] {
+		return
+	}
+	diffSeen[f.Class] = true
+	c.Fail(f)
+}
+
 func must(err error) {
 	if err != nil {
 		fmt.Fprintln(os.Stderr, err)
@@ -102,9 +124,9 @@ func main() {
 			c.Trace()
 			runAny(c, env.Case, true)
 		}
+		genServe(c)
 		genHist(c)
 		genSched(c)
 		genStress(c)
-		genServe(c)
 	})
 }
